@@ -6,6 +6,7 @@
 //   chain <prec> <k> | A1 | ... | Ak | v                               -> P | Pr | pv | nest
 //        P = ((A1*A2)*...)*Ak   Pr = A1*(...*(Ak-1*Ak))   pv = P*v   nest = A1*(A2*(...(Ak*v)))
 //   ctor <prec> <t|s|i> | args (N words; none for i) | v               -> Mx | r            translation / scaling / identity, Mx*v
+#include "ambient.hpp"
 #include <covfie/core/algebra/affine.hpp>
 #include <covfie/core/algebra/matrix.hpp>
 #include <covfie/core/algebra/vector.hpp>
@@ -168,6 +169,7 @@ int main() {
   std::ios::sync_with_stdio(false);
   std::string line;
   while (std::getline(std::cin, line)) {
+    vf::ambient();
     std::istringstream is(line);
     std::vector<std::string> hd;
     std::vector<std::vector<u64>> g;
